@@ -641,6 +641,29 @@ def g2casc(rng):
     return dict(decl=decl, eins=[e1, e2], mapping=mapping, ext=ext, env={}, tags=tags)
 
 
+def g3ff(rng):
+    """two INDEPENDENT static flatten() groups on the same tensors: Z[m,k,n,p] = A[m,k,n,p] * B[m,k,n,p] with (M,K) and (N,P)
+    flattened, loop order [MK, NP] or [NP, MK]; the groups may need a re-ordering first (rank orders shuffled within a group)"""
+    M, K, N, P = rng.choice([("M", "K", "N", "P"), ("I", "J", "H", "R")])
+    ranks = [M, K, N, P]
+    decl = {"A": list(ranks), "Z": list(ranks)}
+    fs = [("t", "A", [V(r) for r in ranks])]
+    if rng.random() < 0.7:
+        rb = list(ranks)
+        if rng.random() < 0.4:
+            rb = [K, M, N, P] if rng.random() < 0.5 else [M, K, P, N]
+        decl["B"] = rb
+        fs.append(("t", "B", [V(r) for r in rb]))
+        rng.shuffle(fs)
+    e = dict(out="Z", oidx=[V(r) for r in ranks], terms=[dict(kind="times", factors=fs, sel=None)])
+    parts = {"(%s, %s)" % (M, K): ["flatten()"], "(%s, %s)" % (N, P): ["flatten()"]}
+    loop = [M + K, N + P]
+    if rng.random() < 0.3:
+        loop.reverse()
+    return dict(decl=decl, eins=[e], mapping={"partitioning": {"Z": parts}, "loop-order": {"Z": loop}},
+                ext={r: rng.randint(1, 3) for r in ranks}, env={}, tags=["g3ff", "loop:" + ",".join(loop)])
+
+
 def g3z(rng):
     """Z[m,n] = A[k,m] * B[k,n]: an output rank split dynamically into >= 3 levels (an intermediate M1I exists) and a
     second, independently partitioned rank after it (and optionally the contracted rank)"""
